@@ -294,7 +294,9 @@ def envelope_cases() -> List[Dict[str, Any]]:
                 note["params"] = p
             out.append({"kind": "envelope", "wire": req, "expect": "request"})
             out.append({"kind": "envelope", "wire": note, "expect": "notification"})
-        for res in ({}, {"v": None, "s": "123"}, [1, "2"], "str", 5, None, True):
+        for res in ({}, {"v": None, "s": "123"}, [1, "2"], "str", 5, None, True,
+                    # values a lenient "mapping" coercion would turn into an object, falsy values, nested emptiness
+                    [], [["uri", "file:///a"], ["name", "a"]], ["ok", "no"], [[1, 2]], "", 0, False, 0.0, [[]], [{}], {"": {}}):
             out.append({"kind": "envelope", "wire": {"jsonrpc": "2.0", "id": mid, "result": res}, "expect": "response"})
         out.append({"kind": "envelope", "wire": {"jsonrpc": "2.0", "id": mid, "error": {"code": -32000, "message": "m"}},
                     "expect": "error"})
